@@ -47,6 +47,9 @@ pub enum Ev {
     /// possibly the replacement of an instance that never got to announce its stop - is only
     /// found in history by the next server
     RestartAfterRegister { name: u8, ctx: u8 },
+    /// the server dies, and `<name>.unregister` naming the active instance (meta.handler_id) is
+    /// appended before the next one starts: that instance must not come back
+    RestartAfterUnregister { name: u8, ctx: u8 },
 }
 
 #[derive(Clone, Debug, Serialize, Deserialize)]
@@ -68,13 +71,14 @@ pub fn strategy() -> BoxedStrategy<C17Case> {
         1 => Just(Ev::Probe),
         2 => Just(Ev::Restart),
         1 => nc().prop_map(|(name, ctx)| Ev::RestartAfterRegister { name, ctx }),
+        1 => nc().prop_map(|(name, ctx)| Ev::RestartAfterUnregister { name, ctx }),
     ];
     proptest::collection::vec(ev, 2..12)
         .prop_map(|mut events| {
             // at most two restarts inside, and always one at the end
             let mut seen = 0;
             events.retain(|e| {
-                if matches!(e, Ev::Restart | Ev::RestartAfterRegister { .. }) {
+                if matches!(e, Ev::Restart | Ev::RestartAfterRegister { .. } | Ev::RestartAfterUnregister { .. }) {
                     seen += 1;
                     seen <= 2
                 } else {
@@ -316,6 +320,7 @@ fn run_in(case: &C17Case, nu: &mut Nu) -> Result<CaseInfo, Fail> {
     let mut had_stop = false;
     let mut failed_call = false;
     let mut replaced_while_down = false;
+    let mut unregistered_while_down = false;
     let mut unreg_elsewhere = false;
     let mut same_text_redefined = false;
     for (i, ev) in case.events.iter().enumerate() {
@@ -462,7 +467,7 @@ fn run_in(case: &C17Case, nu: &mut Nu) -> Result<CaseInfo, Fail> {
                 r.m.generators = saved;
                 res?;
             }
-            Ev::Restart | Ev::RestartAfterRegister { .. } => {
+            Ev::Restart | Ev::RestartAfterRegister { .. } | Ev::RestartAfterUnregister { .. } => {
                 if had_stop && (!r.m.handlers.is_empty() || r.m.generators.values().any(|v| v.is_some()) || !r.m.commands.is_empty()) {
                     stopped_and_live = true;
                 }
@@ -485,6 +490,20 @@ fn run_in(case: &C17Case, nu: &mut Nu) -> Result<CaseInfo, Fail> {
                         had_stop = true;
                         replaced_while_down = true;
                     }
+                } else if let Some((name, ctx)) = match ev {
+                    Ev::RestartAfterUnregister { name, ctx } if r.m.handlers.contains_key(&(*ctx, *name)) => Some((*name, *ctx)),
+                    _ => None,
+                } {
+                    let n = HN[name as usize];
+                    let (hid, _) = r.m.handlers.remove(&(ctx, name)).expect("active");
+                    let (topic, cx) = (format!("{n}.unregister"), r.ctxs[ctx as usize]);
+                    let meta = MetaVal::O(vec![("handler_id".into(), MetaVal::S(hid))]);
+                    r.nu.restart_after(|ex| {
+                        crate::hist::must("append unregister while down", ex.append(&fspec(&topic, cx, Some(meta), None), None))?;
+                        Ok(())
+                    })?;
+                    had_stop = true;
+                    unregistered_while_down = true;
                 } else {
                     r.nu.restart()?;
                 }
@@ -527,6 +546,7 @@ fn run_in(case: &C17Case, nu: &mut Nu) -> Result<CaseInfo, Fail> {
         (same_name_two_ctx, "same-name-in-two-contexts"),
         (failed_call, "command-call-failed-at-run-time"),
         (replaced_while_down, "replacing-register-found-only-in-history"),
+        (unregistered_while_down, "unregister-found-only-in-history"),
         (unreg_elsewhere, "unregister-with-foreign-handler-id-in-another-context"),
         (same_text_redefined, "command-redefined-with-identical-text"),
         (stopped_and_live, "stopped-and-live-at-restart"),
